@@ -806,6 +806,10 @@ def run_scenario(tree, wpath, sc, maxq=None, world=None):
                 res.classes.add("fault_reached")
             else:
                 res.classes.add("fault_not_reached")
+    except qworld.BusyLoop as e:
+        msg = "the daemon is spinning instead of blocking: " + str(e)[:500]
+        for tag in ("C16", "C15", "C03", "C04"):
+            res.v(tag, msg)
     except qworld.Inconclusive as e:
         res.inconclusive = True
         res.stats["inconclusive_reason"] = str(e)
